@@ -73,11 +73,11 @@ func buildFromDefinition(def *configDefinition, lc *loaderContext) (cfg *Config,
 
 	for k, v := range def.Tasks {
 		cfg.Tasks[k], err = buildTask(v, lc)
-		if cfg.Tasks[k].Name == "" {
-			cfg.Tasks[k].Name = k
-		}
 		if err != nil {
 			return nil, err
+		}
+		if cfg.Tasks[k].Name == "" {
+			cfg.Tasks[k].Name = k
 		}
 	}
 
